@@ -26,18 +26,22 @@
 // reductions (C08).  The ternary family is therefore represented by where().
 //
 //   group  functions
-//     1    add subtract multiply                              (64 type pairs)
-//     2    divide maximum minimum                             (64 type pairs)
-//     3    equal not_equal less                               (64 type pairs)
-//     4    less_equal greater greater_equal                   (64 type pairs)
-//     5    mod bitwise_and bitwise_or bitwise_xor left_shift right_shift invert   (integer types)
-//     6    logical_and logical_or logical_xor logical_not where
-//     7    fmod power fmax fmin arctan2 hypot ldexp
-//     8    negative positive square fabs reciprocal signbit isfinite isinf isnan ceil floor trunc rint deg2rad degrees rad2deg radians
-//     9    sin cos tan arcsin arccos arctan sinh cosh tanh arcsinh arccosh arctanh
-//    10    exp exp2 expm1 log log2 log10 log1p sqrt cbrt
-//    11    the 18 activations (default and explicit parameters)
+//     1    add (64 type pairs) subtract (16)
+//     2    divide (64) multiply (16)
+//     3    less (64) greater (16)
+//     4    equal (64) not_equal (16)
+//     5    maximum minimum less_equal greater_equal (16 each)
+//     6    mod bitwise_and bitwise_or bitwise_xor left_shift right_shift invert   (integer types, 12 pairs)
+//     7    logical_and logical_or logical_xor logical_not where
+//     8    fmod power fmax fmin arctan2 hypot ldexp
+//     9    negative positive square fabs reciprocal signbit isfinite isinf isnan ceil floor trunc rint deg2rad degrees rad2deg radians
+//    10    sin cos tan arcsin arccos arctan sinh cosh tanh arcsinh arccosh arctanh
+//    11    exp exp2 expm1 log log2 log10 log1p sqrt cbrt + the 18 activations (default and explicit parameters)
 //    12    outer_{add,multiply (+dtype),subtract,maximum,minimum,fmod,power,left_shift,right_shift,fmax,fmin}
+// Restriction of the type / kind matrix (compile budget: one binary instantiation costs ~0.7 s of g++ time): all 64 ordered element-type
+// pairs for add, divide, less, equal (one function per semantic class: additive, quotient, ordering, equality); the 8 same-type and 8
+// designated mixed pairs (every type on either side) for the other 8 members of the family; operand kinds other than ndarray x ndarray
+// (array-view, view-array, array-scalar, scalar-array, view-scalar, scalar-scalar) on 2-3 type pairs per function.
 #ifndef C07_GROUP
 #error "compile with -DC07_GROUP=1..12"
 #endif
@@ -45,20 +49,21 @@
 #if C07_GROUP == 1
 #include "nmtools/array/array/ufuncs/add.hpp"
 #include "nmtools/array/array/ufuncs/subtract.hpp"
-#include "nmtools/array/array/ufuncs/multiply.hpp"
 #elif C07_GROUP == 2
 #include "nmtools/array/array/ufuncs/divide.hpp"
-#include "nmtools/array/array/ufuncs/maximum.hpp"
-#include "nmtools/array/array/ufuncs/minimum.hpp"
+#include "nmtools/array/array/ufuncs/multiply.hpp"
 #elif C07_GROUP == 3
+#include "nmtools/array/array/ufuncs/less.hpp"
+#include "nmtools/array/array/ufuncs/greater.hpp"
+#elif C07_GROUP == 4
 #include "nmtools/array/array/ufuncs/equal.hpp"
 #include "nmtools/array/array/ufuncs/not_equal.hpp"
-#include "nmtools/array/array/ufuncs/less.hpp"
-#elif C07_GROUP == 4
-#include "nmtools/array/array/ufuncs/less_equal.hpp"
-#include "nmtools/array/array/ufuncs/greater.hpp"
-#include "nmtools/array/array/ufuncs/greater_equal.hpp"
 #elif C07_GROUP == 5
+#include "nmtools/array/array/ufuncs/maximum.hpp"
+#include "nmtools/array/array/ufuncs/minimum.hpp"
+#include "nmtools/array/array/ufuncs/less_equal.hpp"
+#include "nmtools/array/array/ufuncs/greater_equal.hpp"
+#elif C07_GROUP == 6
 #include "nmtools/array/array/ufuncs/mod.hpp"
 #include "nmtools/array/array/ufuncs/bitwise_and.hpp"
 #include "nmtools/array/array/ufuncs/bitwise_or.hpp"
@@ -66,13 +71,13 @@
 #include "nmtools/array/array/ufuncs/left_shift.hpp"
 #include "nmtools/array/array/ufuncs/right_shift.hpp"
 #include "nmtools/array/array/ufuncs/invert.hpp"
-#elif C07_GROUP == 6
+#elif C07_GROUP == 7
 #include "nmtools/array/array/ufuncs/logical_and.hpp"
 #include "nmtools/array/array/ufuncs/logical_or.hpp"
 #include "nmtools/array/array/ufuncs/logical_xor.hpp"
 #include "nmtools/array/array/ufuncs/logical_not.hpp"
 #include "nmtools/array/array/where.hpp"
-#elif C07_GROUP == 7
+#elif C07_GROUP == 8
 #include "nmtools/array/array/ufuncs/fmod.hpp"
 #include "nmtools/array/array/ufuncs/power.hpp"
 #include "nmtools/array/array/ufuncs/fmax.hpp"
@@ -80,7 +85,7 @@
 #include "nmtools/array/array/ufuncs/arctan2.hpp"
 #include "nmtools/array/array/ufuncs/hypot.hpp"
 #include "nmtools/array/array/ufuncs/ldexp.hpp"
-#elif C07_GROUP == 8
+#elif C07_GROUP == 9
 #include "nmtools/array/array/ufuncs/negative.hpp"
 #include "nmtools/array/array/ufuncs/positive.hpp"
 #include "nmtools/array/array/ufuncs/square.hpp"
@@ -98,7 +103,7 @@
 #include "nmtools/array/array/ufuncs/degrees.hpp"
 #include "nmtools/array/array/ufuncs/rad2deg.hpp"
 #include "nmtools/array/array/ufuncs/radians.hpp"
-#elif C07_GROUP == 9
+#elif C07_GROUP == 10
 #include "nmtools/array/array/ufuncs/sin.hpp"
 #include "nmtools/array/array/ufuncs/cos.hpp"
 #include "nmtools/array/array/ufuncs/tan.hpp"
@@ -111,7 +116,7 @@
 #include "nmtools/array/array/ufuncs/arcsinh.hpp"
 #include "nmtools/array/array/ufuncs/arccosh.hpp"
 #include "nmtools/array/array/ufuncs/arctanh.hpp"
-#elif C07_GROUP == 10
+#elif C07_GROUP == 11
 #include "nmtools/array/array/ufuncs/exp.hpp"
 #include "nmtools/array/array/ufuncs/exp2.hpp"
 #include "nmtools/array/array/ufuncs/expm1.hpp"
@@ -121,7 +126,6 @@
 #include "nmtools/array/array/ufuncs/log1p.hpp"
 #include "nmtools/array/array/ufuncs/sqrt.hpp"
 #include "nmtools/array/array/ufuncs/cbrt.hpp"
-#elif C07_GROUP == 11
 #include "nmtools/array/array/activations/celu.hpp"
 #include "nmtools/array/array/activations/elu.hpp"
 #include "nmtools/array/array/activations/hardshrink.hpp"
@@ -177,89 +181,94 @@ using UFI = tl<tt<f32>, tt<f64>, tt<i32>>;
 
 // kinds bit = 1 << (3*KA + KB)   (K_A 0, K_V 1, K_S 2)
 constexpr unsigned KB_AA = 1u << 0, KB_AV = 1u << 1, KB_AS = 1u << 2, KB_VA = 1u << 3, KB_VV = 1u << 4, KB_VS = 1u << 5, KB_SA = 1u << 6, KB_SV = 1u << 7, KB_SS = 1u << 8;
-constexpr unsigned KB_PRIMARY = KB_AA | KB_AV | KB_VA | KB_AS | KB_SA | KB_SS | KB_VV;
-template <typename A, typename B> constexpr bool is_pair(int a, int b) { return tid<A>() == a && tid<B>() == b; }
-// primary pairs of the 64-pair family: the 8 same-type pairs and 8 mixed pairs touching every type on either side
-template <typename TA, typename TB> constexpr bool primary64() {
-    constexpr int a = tid<TA>(), b = tid<TB>();
-    return a == b || (a == 0 && b == 7) || (a == 6 && b == 3) || (a == 4 && b == 1) || (a == 2 && b == 5) || (a == 3 && b == 6) || (a == 5 && b == 0) || (a == 1 && b == 4) || (a == 7 && b == 6);
-}
+constexpr unsigned KB_MENU = KB_AA | KB_AV | KB_VA | KB_AS | KB_SA | KB_VS | KB_SS;   // ndarray pair + view / scalar on either side
+// type pairs that carry the whole kind menu (every other pair: ndarray x ndarray only); MENU is a digit string of type-id pairs
+constexpr bool in_menu(int a, int b, const char* menu) { for (const char* m = menu; m[0] && m[1]; m += 2) if (m[0] - '0' == a && m[1] - '0' == b) return true; return false; }
+#define KSTD(MENU) (in_menu(tid<TA>(), tid<TB>(), MENU) ? KB_MENU : KB_AA)
+#define M_STD "2207"     /* (i32,i32) (i8,f64) */
+#define M_INT "22"       /* (i32,i32) */
+#define M_FLT "77"       /* (f64,f64) */
+#define M_LDEXP "72"     /* (f64,i32) */
+// the 8 same-type pairs and 8 mixed pairs touching every type on either side
+using P16 = cat_t<diag_t<T8>, tl<tt<i8, f64>, tt<f32, i64>, tt<u8, i16>, tt<i32, u32>, tt<i64, f32>, tt<u32, i8>, tt<i16, u8>, tt<f64, f32>>>;
 
 // ------------------------------------------------------------------------------------------------ descriptors
 #define C07_COMMON(NAME) static constexpr const char* name = #NAME; static constexpr bool check_op = true; template <typename TA> static constexpr long smax() { return 0; }
 #define C07_UNARY(NAME, FUNCTOR, DOM, TYPES) struct NAME##_d { C07_COMMON(NAME) static constexpr int arity = 1; using types = TYPES; \
     static auto op() { return FUNCTOR; } template <typename T> static constexpr int dom(int) { return DOM; } \
     template <typename A> static auto lazy(const A& a) { return view::NAME(a); } template <typename A> static auto eager(const A& a) { return na::NAME(a); } };
-#define C07_BINARY(NAME, FUNCTOR, DOMA, DOMB, TYPES, KINDS) struct NAME##_d { C07_COMMON(NAME) static constexpr int arity = 2; using types = TYPES; \
+#define C07_BINARY(NAME, FUNCTOR, DOMA, DOMB, TYPES, MENU) struct NAME##_d { C07_COMMON(NAME) static constexpr int arity = 2; using types = TYPES; \
     static auto op() { return FUNCTOR; } template <typename T> static constexpr int dom(int i) { return i == 0 ? DOMA : DOMB; } \
-    template <typename TA, typename TB> static constexpr unsigned kinds() { return KINDS; } \
+    template <typename TA, typename TB> static constexpr unsigned kinds() { return KSTD(MENU); } \
     template <typename A, typename B> static auto lazy(const A& a, const B& b) { return view::NAME(a, b); } template <typename A, typename B> static auto eager(const A& a, const B& b) { return na::NAME(a, b); } };
-#define K64 (primary64<TA, TB>() ? KB_PRIMARY : KB_AA)
 
 template <typename... F> struct fl {};
 
 #if C07_GROUP == 1
-C07_BINARY(add, view::add_t<>{}, D_ARITH, D_ARITH, P64, K64)
-C07_BINARY(subtract, view::subtract_t<>{}, D_ARITH, D_ARITH, P64, K64)
-C07_BINARY(multiply, view::multiply_t<>{}, D_ARITH, D_ARITH, P64, K64)
-using group_fns = fl<add_d, subtract_d, multiply_d>;
+C07_BINARY(add, view::add_t<>{}, D_ARITH, D_ARITH, P64, M_STD)
+C07_BINARY(subtract, view::subtract_t<>{}, D_ARITH, D_ARITH, P16, M_STD)
+using group_fns = fl<add_d, subtract_d>;
 #elif C07_GROUP == 2
-C07_BINARY(divide, view::divide_t{}, D_ARITH, D_NZ, P64, K64)
-C07_BINARY(maximum, view::maximum_t<>{}, D_FULL, D_FULL, P64, K64)
-C07_BINARY(minimum, view::minimum_t<>{}, D_FULL, D_FULL, P64, K64)
-using group_fns = fl<divide_d, maximum_d, minimum_d>;
+C07_BINARY(divide, view::divide_t{}, D_ARITH, D_NZ, P64, M_STD)
+C07_BINARY(multiply, view::multiply_t<>{}, D_ARITH, D_ARITH, P16, M_STD)
+using group_fns = fl<divide_d, multiply_d>;
 #elif C07_GROUP == 3
-C07_BINARY(equal, view::equal_t{}, D_FULL, D_FULL, P64, K64)
-C07_BINARY(not_equal, view::not_equal_t{}, D_FULL, D_FULL, P64, K64)
-C07_BINARY(less, view::less_t{}, D_FULL, D_FULL, P64, K64)
-using group_fns = fl<equal_d, not_equal_d, less_d>;
+C07_BINARY(less, view::less_t{}, D_FULL, D_FULL, P64, M_STD)
+C07_BINARY(greater, view::greater_t{}, D_FULL, D_FULL, P16, M_STD)
+using group_fns = fl<less_d, greater_d>;
 #elif C07_GROUP == 4
-C07_BINARY(less_equal, view::less_equal_t{}, D_FULL, D_FULL, P64, K64)
-C07_BINARY(greater, view::greater_t{}, D_FULL, D_FULL, P64, K64)
-C07_BINARY(greater_equal, view::greater_equal_t{}, D_FULL, D_FULL, P64, K64)
-using group_fns = fl<less_equal_d, greater_d, greater_equal_d>;
+C07_BINARY(equal, view::equal_t{}, D_FULL, D_FULL, P64, M_STD)
+C07_BINARY(not_equal, view::not_equal_t{}, D_FULL, D_FULL, P16, M_STD)
+using group_fns = fl<equal_d, not_equal_d>;
 #elif C07_GROUP == 5
-C07_BINARY(mod, view::mod_t{}, D_ARITH, D_NZ, PINT, KB_PRIMARY)
-C07_BINARY(bitwise_and, view::bitwise_and_t{}, D_FULL, D_FULL, PINT, KB_PRIMARY)
-C07_BINARY(bitwise_or, view::bitwise_or_t{}, D_FULL, D_FULL, PINT, KB_PRIMARY)
-C07_BINARY(bitwise_xor, view::bitwise_xor_t{}, D_FULL, D_FULL, PINT, KB_PRIMARY)
-// shifts: counts 0 .. (bit width of the promoted left type - 1); left_shift of a signed left operand keeps 6 bits of head room
-// (left values 0..28+) so that no signed overflow / shift of a negative value (undefined in C++17) is requested
+C07_BINARY(maximum, view::maximum_t<>{}, D_FULL, D_FULL, P16, M_STD)
+C07_BINARY(minimum, view::minimum_t<>{}, D_FULL, D_FULL, P16, M_STD)
+C07_BINARY(less_equal, view::less_equal_t{}, D_FULL, D_FULL, P16, M_STD)
+C07_BINARY(greater_equal, view::greater_equal_t{}, D_FULL, D_FULL, P16, M_STD)
+using group_fns = fl<maximum_d, minimum_d, less_equal_d, greater_equal_d>;
+#elif C07_GROUP == 6
+C07_BINARY(mod, view::mod_t{}, D_ARITH, D_NZ, PINT, M_INT)
+C07_BINARY(bitwise_and, view::bitwise_and_t{}, D_FULL, D_FULL, PINT, M_INT)
+C07_BINARY(bitwise_or, view::bitwise_or_t{}, D_FULL, D_FULL, PINT, M_INT)
+C07_BINARY(bitwise_xor, view::bitwise_xor_t{}, D_FULL, D_FULL, PINT, M_INT)
+// shifts: counts 0 .. (bit width of the promoted left type - 1); left_shift of a signed left operand keeps head room
+// (left values 0..28+, counts <= width-8) so that no signed overflow / shift of a negative value (undefined in C++17) is requested
 template <typename TA> constexpr long promoted_bits() { return (long)sizeof(decltype(+std::declval<TA>())) * 8; }
 struct left_shift_d { static constexpr const char* name = "left_shift"; static constexpr bool check_op = true; static constexpr int arity = 2; using types = PINT;
     template <typename TA> static constexpr long smax() { return std::is_signed_v<decltype(+std::declval<TA>())> ? promoted_bits<TA>() - 8 : promoted_bits<TA>() - 1; }
     static auto op() { return view::left_shift_t<>{}; } template <typename T> static constexpr int dom(int i) { return i == 0 ? D_SHL : D_SHIFT; }
-    template <typename TA, typename TB> static constexpr unsigned kinds() { return KB_PRIMARY; }
+    template <typename TA, typename TB> static constexpr unsigned kinds() { return KSTD(M_INT); }
     template <typename A, typename B> static auto lazy(const A& a, const B& b) { return view::left_shift(a, b); } template <typename A, typename B> static auto eager(const A& a, const B& b) { return na::left_shift(a, b); } };
 struct right_shift_d { static constexpr const char* name = "right_shift"; static constexpr bool check_op = true; static constexpr int arity = 2; using types = PINT;
     template <typename TA> static constexpr long smax() { return promoted_bits<TA>() - 1; }
     static auto op() { return view::right_shift_t<>{}; } template <typename T> static constexpr int dom(int i) { return i == 0 ? D_FULL : D_SHIFT; }
-    template <typename TA, typename TB> static constexpr unsigned kinds() { return KB_PRIMARY; }
+    template <typename TA, typename TB> static constexpr unsigned kinds() { return KSTD(M_INT); }
     template <typename A, typename B> static auto lazy(const A& a, const B& b) { return view::right_shift(a, b); } template <typename A, typename B> static auto eager(const A& a, const B& b) { return na::right_shift(a, b); } };
 C07_UNARY(invert, view::invert_t{}, D_FULL, UINT)
 using group_fns = fl<mod_d, bitwise_and_d, bitwise_or_d, bitwise_xor_d, left_shift_d, right_shift_d, invert_d>;
-#elif C07_GROUP == 6
-C07_BINARY(logical_and, view::logical_and_t{}, D_LOGIC, D_LOGIC, PLOG, KB_PRIMARY)
-C07_BINARY(logical_or, view::logical_or_t{}, D_LOGIC, D_LOGIC, PLOG, KB_PRIMARY)
-C07_BINARY(logical_xor, view::logical_xor_t{}, D_LOGIC, D_LOGIC, PLOG, KB_PRIMARY)
+#elif C07_GROUP == 7
+C07_BINARY(logical_and, view::logical_and_t{}, D_LOGIC, D_LOGIC, PLOG, M_STD)
+C07_BINARY(logical_or, view::logical_or_t{}, D_LOGIC, D_LOGIC, PLOG, M_STD)
+C07_BINARY(logical_xor, view::logical_xor_t{}, D_LOGIC, D_LOGIC, PLOG, M_STD)
 C07_UNARY(logical_not, view::logical_not_t{}, D_LOGIC, U8L)
-// where: type triples (condition, x, y) and kind triples
+// where: type triples (condition, x, y); all of them with three ndarrays, the kind menu on the (bool,int32,int32) triple
 struct where_d { static constexpr const char* name = "where"; static constexpr int arity = 3;
     using types = tl<tt<u8, i8, i8>, tt<u8, i16, i16>, tt<i32, i32, i32>, tt<u8, i64, i64>, tt<i8, u8, u8>, tt<u8, u32, u32>, tt<u8, f32, f32>, tt<f64, f64, f64>,
                      tt<bool, i32, i32>, tt<bool, f32, f32>, tt<f64, i32, i32>, tt<i64, i8, i8>, tt<u8, i8, f64>, tt<u8, f32, i64>, tt<i32, u32, i16>, tt<u8, i32, i64>>;
+    template <typename TC, typename TX, typename TY> static constexpr bool menu() { return std::is_same_v<TC, bool> && std::is_same_v<TX, i32>; }
     template <typename A, typename B, typename C> static auto lazy(const A& a, const B& b, const C& c) { return view::where(a, b, c); }
     template <typename A, typename B, typename C> static auto eager(const A& a, const B& b, const C& c) { return na::where(a, b, c); } };
 using group_fns = fl<logical_and_d, logical_or_d, logical_xor_d, logical_not_d, where_d>;
-#elif C07_GROUP == 7
-C07_BINARY(fmod, view::fmod_t<>{}, D_ARITH, D_NZS, PMATH, KB_PRIMARY)
-C07_BINARY(power, view::power_t<>{}, D_POS, D_SMALL, PMATH, KB_PRIMARY)
-C07_BINARY(fmax, view::fmax_t<>{}, D_FULL, D_FULL, PMATH, KB_PRIMARY)
-C07_BINARY(fmin, view::fmin_t<>{}, D_FULL, D_FULL, PMATH, KB_PRIMARY)
-C07_BINARY(arctan2, view::arctan2_t{}, D_ARITH, D_ARITH, PMATH, KB_PRIMARY)
-C07_BINARY(hypot, view::hypot_t{}, D_ARITH, D_ARITH, PMATH, KB_PRIMARY)
-C07_BINARY(ldexp, view::ldexp_t{}, D_SMALL, D_SMALL, PLDEXP, KB_PRIMARY)
-using group_fns = fl<fmod_d, power_d, fmax_d, fmin_d, arctan2_d, hypot_d, ldexp_d>;
 #elif C07_GROUP == 8
+C07_BINARY(fmod, view::fmod_t<>{}, D_ARITH, D_NZS, PMATH, M_FLT)
+C07_BINARY(power, view::power_t<>{}, D_POS, D_SMALL, PMATH, M_FLT)
+C07_BINARY(fmax, view::fmax_t<>{}, D_FULL, D_FULL, PMATH, M_FLT)
+C07_BINARY(fmin, view::fmin_t<>{}, D_FULL, D_FULL, PMATH, M_FLT)
+C07_BINARY(arctan2, view::arctan2_t{}, D_ARITH, D_ARITH, PMATH, M_FLT)
+C07_BINARY(hypot, view::hypot_t{}, D_ARITH, D_ARITH, PMATH, M_FLT)
+C07_BINARY(ldexp, view::ldexp_t{}, D_SMALL, D_SMALL, PLDEXP, M_LDEXP)
+using group_fns = fl<fmod_d, power_d, fmax_d, fmin_d, arctan2_d, hypot_d, ldexp_d>;
+#elif C07_GROUP == 9
 C07_UNARY(negative, view::negative_t{}, D_ARITH, U8L)
 C07_UNARY(positive, view::positive_t{}, D_FULL, U8L)
 C07_UNARY(square, view::square_t{}, D_ARITH, U8L)
@@ -291,7 +300,7 @@ C07_ANGLE(radians, true)
 C07_ANGLE(degrees, false)
 C07_ANGLE(rad2deg, false)
 using group_fns = fl<negative_d, positive_d, square_d, fabs_d, reciprocal_d, signbit_d, isfinite_d, isinf_d, isnan_d, ceil_d, floor_d, trunc_d, rint_d, deg2rad_d, radians_d, degrees_d, rad2deg_d>;
-#elif C07_GROUP == 9
+#elif C07_GROUP == 10
 C07_UNARY(sin, view::sin_t{}, D_ARITH, U8L)
 C07_UNARY(cos, view::cos_t{}, D_ARITH, U8L)
 C07_UNARY(tan, view::tan_t{}, D_ARITH, U8L)
@@ -305,7 +314,7 @@ C07_UNARY(arcsinh, view::arcsinh_t{}, D_FULL, U8L)
 C07_UNARY(arccosh, view::arccosh_t{}, D_GE1, U8L)
 C07_UNARY(arctanh, view::arctanh_t{}, D_UNITO, U8L)
 using group_fns = fl<sin_d, cos_d, tan_d, arcsin_d, arccos_d, arctan_d, sinh_d, cosh_d, tanh_d, arcsinh_d, arccosh_d, arctanh_d>;
-#elif C07_GROUP == 10
+#elif C07_GROUP == 11
 C07_UNARY(exp, view::exp_t{}, D_SMALL, U8L)
 C07_UNARY(exp2, view::exp2_t{}, D_SMALL, U8L)
 C07_UNARY(expm1, view::expm1_t{}, D_SMALL, U8L)
@@ -315,8 +324,6 @@ C07_UNARY(log10, view::log10_t{}, D_POS, U8L)
 C07_UNARY(log1p, view::log1p_t{}, D_GTM1, U8L)
 C07_UNARY(sqrt, view::sqrt_t{}, D_POS, U8L)
 C07_UNARY(cbrt, view::cbrt_t{}, D_ARITH, U8L)
-using group_fns = fl<exp_d, exp2_d, expm1_d, log_d, log2_d, log10_d, log1p_d, sqrt_d, cbrt_d>;
-#elif C07_GROUP == 11
 // activations: default parameters (NAME) and explicit parameters (NAME_p); floating element types
 #define C07_ACT_BODY(DNAME, FUNCTOR) static constexpr const char* name = #DNAME; static constexpr bool check_op = true; static constexpr int arity = 1; using types = UF; \
     template <typename TA> static constexpr long smax() { return 0; } static auto op() { return FUNCTOR; } template <typename T> static constexpr int dom(int) { return D_SMALL; }
@@ -350,7 +357,7 @@ C07_ACT(softshrink, view::fun::softshrink<float>{})
 C07_ACTP(softshrink_p, softshrink, view::fun::softshrink<float>{1.25f}, 1.25f)
 C07_ACT(softsign, view::fun::softsign{})
 C07_ACT(tanhshrink, view::fun::tanhshrink{})
-using group_fns = fl<celu_d, celu_p_d, elu_d, elu_p_d, hardshrink_d, hardshrink_p_d, hardswish_d, hardtanh_d, hardtanh_p_d, leaky_relu_d, leaky_relu_p_d, log_sigmoid_d, mish_d,
+using group_fns = fl<exp_d, exp2_d, expm1_d, log_d, log2_d, log10_d, log1p_d, sqrt_d, cbrt_d, celu_d, celu_p_d, elu_d, elu_p_d, hardshrink_d, hardshrink_p_d, hardswish_d, hardtanh_d, hardtanh_p_d, leaky_relu_d, leaky_relu_p_d, log_sigmoid_d, mish_d,
                      prelu_d, prelu_p_d, relu_d, relu6_d, selu_d, sigmoid_d, silu_d, softplus_d, softplus_p_d, softshrink_d, softshrink_p_d, softsign_d, tanhshrink_d>;
 #elif C07_GROUP == 12
 // outer variants.  types = (left, right, requested dtype or void)
@@ -365,8 +372,9 @@ template <typename TA> constexpr long promoted_bits() { return (long)sizeof(decl
     template <typename TA> static constexpr long smax() { return SMAX; } static auto op() { return FUNCTOR; } template <typename T> static constexpr int dom(int i) { return i == 0 ? DOMA : DOMB; } \
     template <typename A, typename B, typename D> static auto lazy_outer(const A& a, const B& b, D d) { return view::outer_##NAME(a, b, d); } \
     template <typename A, typename B, typename D> static auto eager_outer(const A& a, const B& b, D d) { return na::NAME.outer(a, b, d); } };
-C07_OUTER(add, view::add_t<>{}, D_ARITH, D_ARITH, (cat_t<OSAME, OMIX, ODT>), 0)
-C07_OUTER(multiply, view::multiply_t<>{}, D_ARITH, D_ARITH, (cat_t<OSAME, OMIX, ODT>), 0)
+using OADD = cat_t<OSAME, OMIX, ODT>;
+C07_OUTER(add, view::add_t<>{}, D_ARITH, D_ARITH, OADD, 0)
+C07_OUTER(multiply, view::multiply_t<>{}, D_ARITH, D_ARITH, OADD, 0)
 C07_OUTER(subtract, view::subtract_t<>{}, D_ARITH, D_ARITH, OFEW, 0)
 C07_OUTER(maximum, view::maximum_t<>{}, D_FULL, D_FULL, OFEW, 0)
 C07_OUTER(minimum, view::minimum_t<>{}, D_FULL, D_FULL, OFEW, 0)
@@ -409,10 +417,10 @@ template <typename FN> static void enum_fn(bool th, const nmc::Sink& emit) {
         each_types(typename FN::types{}, [&](auto tup) {
             using TC = typename decltype(tup)::template at<0>; using TX = typename decltype(tup)::template at<1>; using TY = typename decltype(tup)::template at<2>;
             L ty{tid<TC>(), tid<TX>(), tid<TY>()};
-            bool first = std::is_same_v<TX, TY> && (std::is_same_v<TC, u8> || std::is_same_v<TC, bool>);
+            constexpr bool menu = FN::template menu<TC, TX, TY>();
             for (auto& k : WHERE_KINDS) {
                 bool all_arrays = k[0] != 2 && k[1] != 2 && k[2] != 2;
-                if (!first && !(k[0] == 0 && k[1] == 0 && k[2] == 0) && !(k[0] == 0 && k[1] == 2 && k[2] == 0)) continue;   // kind menu on the primary triples; others: arrays and (array, scalar, array)
+                if (!menu && !(k[0] == 0 && k[1] == 0 && k[2] == 0)) continue;   // kind menu on the menu triples only
                 L kk{k[0] * 100 + k[1] * 10 + k[2]};
                 each_shape_triple(th, [&](const L& a, const L& b, const L& c) {
                     if (!all_arrays) { if ((k[1] == 2 && b != L{1}) || (k[2] == 2 && c != L{1})) return; }   // scalar slots: enumerate the other shapes once
@@ -452,12 +460,10 @@ template <typename FN, typename TA, typename TB> static Outcome exec_binary_k(lo
     nmc::die("binary kind not instantiated");
 }
 template <typename FN, typename TC, typename TX, typename TY> static Outcome exec_where_k(long kk, const L& a, const L& b, const L& c) {
-    switch (kk) {
-    case 0:   return run_where<FN, TC, TX, TY, K_A, K_A, K_A>(a, b, c);
-    case 20:  return run_where<FN, TC, TX, TY, K_A, K_S, K_A>(a, b, c);
-    }
-    if constexpr (std::is_same_v<TX, TY> && (std::is_same_v<TC, u8> || std::is_same_v<TC, bool>)) {
+    if (kk == 0) return run_where<FN, TC, TX, TY, K_A, K_A, K_A>(a, b, c);
+    if constexpr (FN::template menu<TC, TX, TY>()) {
         switch (kk) {
+        case 20:  return run_where<FN, TC, TX, TY, K_A, K_S, K_A>(a, b, c);
         case 100: return run_where<FN, TC, TX, TY, K_V, K_A, K_A>(a, b, c);
         case 10:  return run_where<FN, TC, TX, TY, K_A, K_V, K_A>(a, b, c);
         case 1:   return run_where<FN, TC, TX, TY, K_A, K_A, K_V>(a, b, c);
